@@ -619,7 +619,11 @@ class Gen(object):
                 self.prog.points[cid] = {"kind": "probe", "where": "exit"}
             if c in ("enter_context", "push_mgr"):
                 xs = self.script(False, "exit")
-                m = "W.m(F, %d, 'S', (), %r, 0, 0, host=%s)" % (k, xs, es)
+                mk = "S"
+                if self.cfg.__dict__.get("nameless_exit") and t.choose(5) == 4:
+                    # the class's __exit__ is a callable object without a __name__ (a mock, for one)
+                    mk = "NS"
+                m = "W.m(F, %d, %r, (), %r, 0, 0, host=%s)" % (k, mk, xs, es)
                 if c == "enter_context":
                     self.emit(fn, ind, "W.es_enter_context(%s, %s)" % (es, m))
                 else:
